@@ -352,18 +352,24 @@ def jobs_protect(tier):
                 if has_type(t1, poct):
                     yield dict(part='protect', product=product, pw=pname,
                                ptype=t1)
+                    # the tag already holds another key (system blocks
+                    # still writeable)
+                    if t1 == 'bytes' or pname in ('empty', 'A1'):
+                        yield dict(part='protect', product=product, pw=pname,
+                                   ptype=t1, start='AS')
 
 
 def work_protect(job, acc):
     product, t1 = job['product'], job['ptype']
     poct = dkeys(F_PASS)[job['pw']]
-    model = f_model(product, bytes(16))
+    start = job.get('start')
+    model = f_model(product, dkeys(F_KEYS)[start] if start else bytes(16))
     clf, tag = f_activate(model)
     set_challenge(CHALLENGES[0])
     clf.arm()
     o = call(tag.protect, typed(t1, poct))
-    k0 = ('protect', product, job['pw'], t1)
-    detail = dict(part='protect', product=product, ptype=t1,
+    k0 = ('protect', product, job['pw'], t1, start)
+    detail = dict(part='protect', product=product, ptype=t1, start=start,
                   password=poct.hex(), observed=show(o),
                   expected='True, card key %s' % f_key(poct).hex(),
                   card_key_after=model.card_key().hex(),
@@ -1283,7 +1289,7 @@ def replay(doc):
     elif part == 'protect':
         pw = [n for n, o in F_PASS if o.hex() == d['password']][0]
         work_protect(dict(part='protect', product=d['product'], pw=pw,
-                          ptype=d['ptype']), acc)
+                          ptype=d['ptype'], start=d.get('start')), acc)
     elif part == 'ntag':
         job = dict(part='ntag', product=d['product'], what=d['what'])
         if d['what'].startswith('protect'):
